@@ -213,6 +213,15 @@ func generate(tier string, r *rng.R) []fw.Case {
 	for i := 0; i < nw; i++ {
 		cs = append(cs, genRandomWrites(r.Fork()))
 	}
+	// a real Environment driven through its transitions: the environment's own variable writes
+	cs = append(cs, fixedEnv()...)
+	ne := 150
+	if tier == "thorough" {
+		ne = 3000
+	}
+	for i := 0; i < ne; i++ {
+		cs = append(cs, genRandomEnv(r.Fork()))
+	}
 	return cs
 }
 
@@ -220,6 +229,9 @@ func generate(tier string, r *rng.R) []fw.Case {
 // defined by at least two sources, i.e. the precedence rule has something to decide.
 func nontrivial(input, obs string) bool {
 	in, err := sx.Parse(input)
+	if err == nil && isEnvForm(in) {
+		return nontrivialE(in)
+	}
 	if err == nil && in.IsList && in.Len() == 5 {
 		return nontrivialW(in)
 	}
@@ -291,6 +303,9 @@ func dropKey(n *sx.Node, k string) *sx.Node {
 
 func shrinkCands(input string) []string {
 	in, err := sx.Parse(input)
+	if err == nil && isEnvForm(in) {
+		return shrinkCandsE(in)
+	}
 	if err == nil && in.IsList && in.Len() == 5 {
 		return shrinkCandsW(in)
 	}
@@ -370,6 +385,11 @@ func init() {
 			"shadowing a key) loaded by the real ProcessTemplates, then a history of SetRuntimeVar / SetGlobalRuntimeVar / DeleteRuntimeVar / " +
 			"DeleteGlobalRuntimeVar calls on arbitrary roles of the loaded tree, then the same observation at EVERY role — 7 fixed shapes x every " +
 			"role x 9 histories, and random templates (<=14 loaded roles, 1-6 writes); non-trivial = some non-global write lands below the root; " +
+			"(d) writes of the environment itself: a REAL core/environment.Environment (newEnvironment, real fsm and callbacks, TryTransition) with a " +
+			"configuration store (defaults, vars -> BaseConfigStack), user-supplied variables and a loaded workflow, driven through schedules of " +
+			"transitions (legal, illegal, with failing task-level bodies) and runtime writes in between; the per-role observation at EVERY role after " +
+			"the load and after EVERY schedule item — 4 workflow shapes x 6 store/user configurations x 7 schedules, and random ones (<=6 roles, " +
+			"2-8 items); non-trivial = the schedule requests START_ACTIVITY and the input defines a key the environment writes; " +
 			"distinct by input text",
 		Shrink: shrinkCands,
 		Exhaustive: func(string) bool { return false }, // the exhaustive block is complete, the random block is a sample
@@ -380,15 +400,21 @@ func init() {
 			"hooks core/workflow/verif_hook_c14.go (VerifC14SetParent = setParent) and core/task/verif_hook_c14.go (VerifC14NewTask = the Task literal of newTaskForMesosOffer)",
 			"expr-lang/fasttemplate evaluation of a bare identifier",
 			"writes form: repos.Repo{h/p/r@x} as the workflow repository, addressing of loaded roles by child index through GetRoles()",
+			"environment form: hooks core/environment/verif_hooks.go (NewEnvironmentForVerif = newEnvironment, SetWorkflowForVerif, WfAdapterForVerif, NewScriptedTransition), " +
+				"core/task NewBareManagerForVerif; the store's content is put into the exported GlobalDefaults/GlobalVars after newEnvironment and BaseConfigStack is " +
+				"recomputed with newEnvironment's expression; timestamps printed as T (13 digits), run numbers by order of drawing; go/ast enumeration of the environment's writes (envfacts.go)",
 		},
 		Assumptions: []string{
 			"keys probed are disjoint from the six task-special names written by buildSpecialVarStack",
 			"values contain no template syntax (template references between levels are C15's load model)",
 			"the configuration service (mock://) is not consulted when a field is a bare identifier",
 			"writes form: every aggregator has a child and every iterator a value (pruning of disabled/empty roles is C15's subject); a role's U is written after the load on every instance",
+			"environment form: no hooks in the workflow, the task-level body of a transition writes no variable (true of the real transition bodies: go/ast table lists every write of core/environment), " +
+				"inputs do not use __fmq_cleanup_count nor the six keys apricot's GetDefaults adds (consul_*, framework_id, core_hostname); opaque guard `err == nil` of before_event holds",
 		},
 	})
 	fw.RegisterGen(fw.GenFile{Name: "VarsFacts.lean", Make: genFacts})
+	fw.RegisterGen(fw.GenFile{Name: "C14EnvWrites.lean", Make: genEnvWrites})
 }
 
 // ---- regenerated facts ----------------------------------------------------------------
